@@ -816,6 +816,9 @@ func (base *Type) mixin(derived *Type) {
 	if base.path != "" && derived.path == "" {
 		derived.path = base.path
 	}
+	if base.requireInstance {
+		derived.requireInstance = true
+	}
 
 	// merge ranges
 	if derived.ranges == nil {
